@@ -266,8 +266,9 @@ def harnesses(tier):
             hs.append({"name": "built/%s/%s/%s/vb=%s/g=%s" % (k, t, p, vb, grp), "fn": "h_built",
                        "params": {"kinds": [k], "trs": [t], "paint": p, "viewbox": vb, "group": grp}})
             if tier == "thorough":
-                for p2 in paints:
-                    for vb2 in (True, False):
+                # two-shape documents: two further paints per (kind, transform), viewBox present and absent
+                for p2 in (paints[(i + 1) % len(paints)], paints[(i + 3) % len(paints)]):
+                    for vb2 in ((True, False) if p2 == paints[(i + 1) % len(paints)] else (vb,)):
                         hs.append({"name": "built/%s/%s/%s/vb=%s/x" % (k, t, p2, vb2), "fn": "h_built",
                                    "params": {"kinds": [k, "rect"], "trs": [t, "ts"], "paint": p2, "viewbox": vb2, "group": True}})
     for k in KINDS:
